@@ -150,6 +150,11 @@ func drawC06(t *rapid.T) C06Case {
 		Unicode: rapid.IntRange(0, 5).Draw(t, "unicode") == 0,
 	}
 	j := gen.GenJournal(t, cfg)
+	wide := rapid.IntRange(0, 7).Draw(t, "wide") == 0
+	if wide {
+		// many commodities and accounts first mentioned by several files at once
+		j = gen.GenWideJournal(t)
+	}
 	// extra prices between arbitrary pairs: alternative paths, cycles
 	if len(j.Commodities) >= 3 && rapid.IntRange(0, 1).Draw(t, "extraPrices") == 0 {
 		lo, hi, _ := gen.DatesOf(j)
@@ -168,20 +173,26 @@ func drawC06(t *rapid.T) C06Case {
 		j.Directives = gen.Shuffle(t, j.Directives)
 	}
 	tree := gen.SplitIntoTree(t, j.Directives, 6)
+	if wide {
+		tree = gen.SplitIntoTreeMin(t, gen.Shuffle(t, j.Directives), 4, 8)
+	}
 	c := C06Case{Files: tree.Files, Runs: 6}
 	if thorough() {
 		c.Runs = 24
 	}
 	v := rapid.SampledFrom(j.Commodities).Draw(t, "valuation")
 	c.Class = rapid.SampledFrom([]string{"balance", "balance", "balance", "print", "print", "check-write", "transcode", "weights", "returns", "register", "register"}).Draw(t, "class")
+	if wide {
+		c.Class = rapid.SampledFrom([]string{"balance", "balance", "print", "check-write", "register"}).Draw(t, "wideClass")
+	}
 	valued := false
 	switch c.Class {
 	case "balance":
-		f := gen.DrawBalFlags(t, j, gen.FlagOpts{Mappings: true, Hide: true, Remap: true, Filters: true, Valuation: true})
+		f := gen.DrawBalFlags(t, j, gen.FlagOpts{Mappings: true, Hide: true, Remap: true, Filters: true, Valuation: !wide})
 		valued = f.Valuation != ""
 		c.Argv = append(append([]string{"balance"}, f.Args()...), tree.Main)
 	case "register":
-		f := gen.DrawBalFlags(t, j, gen.FlagOpts{Mappings: true, Remap: true, Valuation: true})
+		f := gen.DrawBalFlags(t, j, gen.FlagOpts{Mappings: true, Remap: true, Valuation: !wide})
 		args := []string{"register", "--color=false"}
 		if f.From != nil {
 			args = append(args, "--from", f.From.String())
@@ -255,6 +266,9 @@ func drawC06(t *rapid.T) C06Case {
 		valued = true
 	}
 	c.Ties = c06Ties(j, tree, c.Class, valued)
+	if wide {
+		c.Ties = append(c.Ties, "tie:many-new-names-in-several-files")
+	}
 	return c
 }
 
